@@ -208,7 +208,7 @@ class FlowMixin:
     def entails(self, st, goal):
         s = z3.Solver()
         s.set("rlimit", 1800000)
-        s.set("timeout", 8000)
+        s.set("timeout", 60000)   # safety net only; the budget is the rlimit above
         for a in self.class_axioms():
             s.add(a)
         for a in st.hs.axioms:
